@@ -124,6 +124,15 @@ def run_check(modname, tier='quick', seed=0):
             cr = pool.map_async(_canary_one, canary_jobs) if canary_jobs else None
             results = ar.get() if ar else []
             canaries = cr.get() if cr else []
+    # an obligation that timed out while the pool was busy is tried again alone with four times the budget: verdicts must
+    # not depend on machine load (a real failure stays unknown/sat and is then reported)
+    for k, r in enumerate(results):
+        if any(o['status'] == 'unknown' for o in r['obligation_list']) and not any(o['status'] == 'sat' for o in r['obligation_list']):
+            r2 = _verify_one((modname, r['kind'], r['idx'], timeout_ms * 4))
+            r2['retried_alone'] = True
+            if sum(o['status'] != 'unsat' for o in r2['obligation_list']) <= sum(o['status'] != 'unsat' for o in r['obligation_list']) \
+                    and not r2.get('error'):
+                results[k] = r2
     # a canary is caught when at least one variant (typed case) of the function catches it
     cg = {}
     for c in canaries:
